@@ -82,6 +82,17 @@ def all_model_configs(max_t=3, max_c=2) -> list:
     return out
 
 
+def beyond_bound_configs() -> list:
+    """3 tensors with every other set of tensors backed by the destination (the MC bound is {} / {1})."""
+    out = []
+    for backed in ((2,), (3,), (1, 2), (1, 3), (2, 3), (1, 2, 3)):
+        for dest in ("file", "symlink"):
+            for nc in (1, 2):
+                for par in (False, True):
+                    out.append(_cfg(3, nc, dest, backed, par))
+    return out
+
+
 def sys_configs(tier: str) -> list:
     quick = [
         _cfg(2, 2, "file", (1,)),
@@ -94,16 +105,15 @@ def sys_configs(tier: str) -> list:
         _cfg(2, 1, shard=True),
         _cfg(2, 1, shard=True, pre=(2,)),
     ]
-    if tier == "quick":
-        return quick
     extra = [
         _cfg(3, 1, "file", (1, 3)),            # two tensors backed by the destination (beyond the MC bound)
         _cfg(2, 1, "file", (1,), np=(2,)),
         _cfg(3, 2, "symlink", (1,), par=True),
         _cfg(3, 1, shard=True, pre=(1, 3)),
     ]
+    pool = quick + [c for c in all_model_configs() if c["nt"] <= 2] if tier == "quick" else quick + extra + all_model_configs() + beyond_bound_configs()
     seen, out = set(), []
-    for c in quick + extra + all_model_configs():
+    for c in pool:
         k = F.cfg_key(c)
         if k not in seen:
             seen.add(k)
@@ -114,6 +124,9 @@ def sys_configs(tier: str) -> list:
 def py_configs(tier: str) -> list:
     cfgs = all_model_configs()
     extra = [_cfg(3, 1, "file", (1, 3)), _cfg(3, 2, "symlink", (2,), par=True), _cfg(3, 2, "file", (1, 2, 3))]
+    if tier == "thorough":
+        seen = {F.cfg_key(c) for c in cfgs + extra}
+        extra += [c for c in beyond_bound_configs() if F.cfg_key(c) not in seen]
     return cfgs + extra
 
 
@@ -136,8 +149,12 @@ def to_trace(run: dict):
         died = bool(run.get("died"))
         vis = F.PY_VIS
     else:
+        if run.get("rc") == -999:
+            return None, "timeout of the strace'd child"
         if not run.get("begin"):
             return None, "injection hit outside the save (before the begin marker)"
+        if run.get("unmapped"):
+            return None, "injection landed on a system call that is not an effect of the save (" + run["unmapped"][0] + ")"
         events = run["events"]
         res = run.get("res") or {}
         died = False
@@ -213,13 +230,13 @@ def py_faults(events: list, tier: str) -> list:
     return out
 
 
-def sys_injections(run0: dict, tier: str, rng: random.Random) -> list:
+def sys_injections(run0: dict, tier: str, rng: random.Random, mode: str = "attach") -> list:
     seen, out = set(), []
     for i, (e, pos) in enumerate(zip(run0["events"], run0["positions"])):
         name, k, is_main = pos
         if (name, k) in seen:
             continue
-        if not is_main and name not in ("write", "pwrite64", "copy_file_range"):
+        if not is_main and mode == "exec" and name not in ("write", "pwrite64", "copy_file_range"):
             continue   # `when=k` counts per thread: a small k of openat/close would hit interpreter start-up instead
         seen.add((name, k))
         errs = ERRNOS.get(name, ["EIO"])
@@ -227,7 +244,9 @@ def sys_injections(run0: dict, tier: str, rng: random.Random) -> list:
             errs = [errs[i % len(errs)]] if name != "copy_file_range" else errs[:1] + ["EPERM"]
         for en in errs:
             out.append({"sys": name, "k": k, "kind": "fail", "errno": en, "at": e["a"]})
-        out.append({"sys": name, "k": k, "kind": "kill", "at": e["a"]})
+        if is_main or mode == "exec":
+            # a SIGKILL at a worker's k-th call would already fire at the k-th dummy call of the saving thread
+            out.append({"sys": name, "k": k, "kind": "kill", "at": e["a"]})
     return out
 
 
@@ -245,7 +264,7 @@ def _pool_map(fn, jobs, procs):
 def model_check(ctx) -> dict:
     """Exhaustive check of the design + emission of the allowed terminal states per fault position."""
     p1 = os.path.join(SPEC_DIR, "AtomicSaveMC.cfg")       # 1 fault, emits the terminal states
-    r1 = ctx.tlc(MC, p1, tag="mc-emit", timeout=600)
+    r1 = ctx.tlc(MC, p1, tag="mc-emit", timeout=600, heap="3g")
     if not r1.ok:
         raise MachineryError(f"AtomicSaveMC (1 fault) failed: violated={r1.violated} errors={r1.errors[:2]}\n{r1.tail(25)}")
     allowed: dict = {}
@@ -267,7 +286,7 @@ def model_check(ctx) -> dict:
             (tuple(o["files"]), o["tdir"], o["tfile"]["k"], o["out"], tuple(o["invalid"]))
         )
     p2 = os.path.join(SPEC_DIR, "AtomicSaveMC_f2.cfg")    # 2 faults (fault during clean-up), with action coverage
-    r2 = ctx.tlc(MC, p2, tag="mc-f2", timeout=900, coverage=True)
+    r2 = ctx.tlc(MC, p2, tag="mc-f2", timeout=900, coverage=True, heap="3g")
     if not r2.ok:
         raise MachineryError(f"AtomicSaveMC (2 faults) failed: violated={r2.violated} errors={r2.errors[:2]}\n{r2.tail(25)}")
     cov = {k.split("!")[1]: v[0] for k, v in r2.coverage.items() if k.split("!")[1].startswith("S_")}
@@ -290,9 +309,10 @@ def validate(ctx, traces: list, tag: str) -> dict:
     with open(path, "w") as f:
         json.dump({"traces": traces}, f)
     r = ctx.tlc(TRACE, os.path.join(SPEC_DIR, "AtomicSaveTrace.cfg"), tag=f"trace-{tag}", env={"TRACE_FILE": path},
-                timeout=900)
+                timeout=1500, heap="4g")
     if r.errors or r.returncode != 0 or r.violated:
-        raise MachineryError(f"AtomicSaveTrace failed: violated={r.violated} errors={r.errors[:2]}\n{r.tail(25)}")
+        raise MachineryError(f"AtomicSaveTrace failed: rc={r.returncode} violated={r.violated} errors={r.errors[:3]}\n"
+                             f"{r.error_trace()[:1500]}\n...\n{r.tail(12)}")
     for rec in r.records():
         kind, tid = rec[0], rec[1]
         if kind == "acc":
@@ -319,6 +339,7 @@ def _detail(run: dict, tr: dict, props: list) -> dict:
         d["fault"] = run.get("fault")
     else:
         d["inject"] = run.get("inject")
+        d["mode"] = run.get("mode")
     a, kind = fault_of(run)
     if tr.get("died"):
         kind = "self-crash"
@@ -399,18 +420,26 @@ def _exercise(ctx, run: dict, tr: dict, allowed: dict) -> None:
     ev = tr["ev"]
     nf = sum(1 for e in ev if e["r"] == "fail" or e["a"] == "CfrFallback")
     pos = None
+    backed = run["cfg"]["backed"]
+
+    def key_of(b):
+        t, j = (b["t"], b["j"]) if b["a"] in PER_TENSOR else (0, 0)
+        if b["a"] == "OpenSrc" and t == 0:      # the log does not name the tensor; take the next backed one written
+            done = {x["t"] for x in ev[: ev.index(b)] if x["a"] == "WriteChunk" and x["r"] == "ok"}
+            rest = [x for x in backed if x not in done]
+            t = rest[0] if rest else 0
+        return b["a"], t, j
+
     for i, e in enumerate(ev):
-        t, j = (e["t"], e["j"]) if e["a"] in PER_TENSOR else (0, 0)
+        if e["a"] == "CfrFallback" and nf == 1:
+            pos = ("fail", "none", 0, 0, 1)
+            break
         if e["r"] == "fail" and nf == 1:
-            pos = ("fail", e["a"], t, j, 1)
+            pos = ("fail",) + key_of(e) + (1,)
             break
         if e["r"] == "kill" and nf == 0:
             for back in (i - 1, i):   # killed before the effect: crash after the previous one (or after this one)
-                if back < 0:
-                    p = ("crash-after", "none", 0, 0, 0)
-                else:
-                    b = ev[back]
-                    p = ("crash-after", b["a"], b["t"] if b["a"] in PER_TENSOR else 0, b["j"] if b["a"] in PER_TENSOR else 0, 0)
+                p = ("crash-after", "none", 0, 0, 0) if back < 0 else ("crash-after",) + key_of(ev[back]) + (0,)
                 if (ck, p) in allowed:
                     ctx.extra.setdefault("_exercised", set()).add((ck, p))
             return
@@ -461,21 +490,22 @@ def run(ctx):
 
     # ---- syscall layer ----------------------------------------------------------------------
     t0 = time.time()
-    ok, why = F.strace_available()
-    ctx.extra["syscall_layer"] = "strace " + ("available" if ok else "UNAVAILABLE: " + why)
+    mode, why = F.strace_available()
+    ok = mode is not None
+    ctx.extra["syscall_layer"] = (f"strace, mode={mode}" if ok else "UNAVAILABLE: " + why)
     if not ok:
         ctx.note("syscall layer skipped (" + why + "); verdict rests on the Python layer only")
     else:
         scfgs = sys_configs(ctx.tier)
-        s0 = _pool_map(F.sys_job, [{"cfg": c, "dir": os.path.join(base, f"sys0-{i}")} for i, c in enumerate(scfgs)], procs)
+        s0 = _pool_map(F.sys_job, [{"cfg": c, "dir": os.path.join(base, f"sys0-{i}"), "mode": mode} for i, c in enumerate(scfgs)], procs)
         jobs = []
         for i, (c, r0) in enumerate(zip(scfgs, s0)):
             if not r0.get("begin"):
                 raise MachineryError(f"syscall layer run 0 unusable for {F.cfg_key(c)}: rc={r0.get('rc')} {r0.get('stderr', '')[-300:]}")
             if not r0.get("end"):
                 continue   # the fault-free save killed its own process: judged below as a crashed run
-            for n, inj in enumerate(sys_injections(r0, ctx.tier, rng)):
-                jobs.append({"cfg": c, "dir": os.path.join(base, f"sys-{i}-{n}"), "inject": inj})
+            for n, inj in enumerate(sys_injections(r0, ctx.tier, rng, mode)):
+                jobs.append({"cfg": c, "dir": os.path.join(base, f"sys-{i}-{n}"), "inject": inj, "mode": mode})
         sruns = _pool_map(F.sys_job, jobs, procs)
         landed = sum(1 for r in sruns if r.get("injected") or r.get("killed_in"))
         ctx.extra["sys_injections_requested"] = len(jobs)
@@ -485,6 +515,20 @@ def run(ctx):
             for c, r0 in list(zip(scfgs, s0))[:6]
         }
         judge(ctx, s0 + sruns, "sys", allowed)
+        if ctx.tier == "thorough" and mode == "attach":
+            # the same, with a FRESH interpreter started under strace (positions counted from process start)
+            xcfgs = sys_configs("quick")[:9]
+            x0 = _pool_map(F.sys_job, [{"cfg": c, "dir": os.path.join(base, f"sysx0-{i}"), "mode": "exec"}
+                                       for i, c in enumerate(xcfgs)], procs)
+            jobs = []
+            for i, (c, r0) in enumerate(zip(xcfgs, x0)):
+                if not (r0.get("begin") and r0.get("end")):
+                    continue
+                for n, inj in enumerate(sys_injections(r0, "quick", rng, "exec")):
+                    jobs.append({"cfg": c, "dir": os.path.join(base, f"sysx-{i}-{n}"), "inject": inj, "mode": "exec"})
+            xruns = _pool_map(F.sys_job, jobs, procs)
+            ctx.extra["sys_exec_mode_runs"] = len(xruns) + len(x0)
+            judge(ctx, x0 + xruns, "sysx", allowed)
     ctx.extra["wall_sys_s"] = round(time.time() - t0, 1)
     ctx.extra["wall_tlc_mc_s"] = round(t_mc, 1)
 
@@ -506,7 +550,10 @@ def replay(ctx, detail) -> bool:
     if detail.get("layer") == "py":
         run_ = F.py_job({"cfg": c, "dir": d, "fault": detail.get("fault")})
     else:
-        run_ = F.sys_job({"cfg": c, "dir": d, "inject": detail.get("inject")})
+        mode, _why = F.strace_available()
+        if mode is None:
+            raise MachineryError("strace is not available for the replay of a syscall-layer run")
+        run_ = F.sys_job({"cfg": c, "dir": d, "inject": detail.get("inject"), "mode": detail.get("mode") or mode})
     tr, why = to_trace(run_)
     if tr is None:
         raise MachineryError("replay run unusable: " + str(why))
